@@ -145,8 +145,9 @@ var propSpecs = map[string]*PropSpec{
 	"C11": {
 		ID: "C11", Exclude: jsonLabels, Title: "plan creates the whole described graph or nothing",
 		Funcs:     cat(lockFuncs, []string{"RunPlan", "RunPlan$1", "(*PlanInput).Validate", "appendEventsAtomically", "newEvent", "newShortID", "isReachable", "hasCycle"}, replayFuncs),
+		Bounded:   []string{"planParse"},
 		Technique: "contract-based deductive verification: Validate's postcondition (non-blank title and task titles, distinct titles, every after names another task of the plan, non-empty task list) is the precondition of the plan section; the section's loop invariants carry, for every input position, the exact new_epic/new_task event (id, epic, todo, title, body), the reported id, pairwise distinct fresh ids outside graph and tombstones, and for every reported edge the link event with the same endpoints named by some after entry; one atomic replace appends exactly these events after the unchanged prefix; every failing path leaves log version and commit count unchanged",
-		Assume:    []string{"ParsePlanInput (strict JSON decoding: unknown keys, several values) and hasPlanCycle (title-level cycle text) are assumed contracts; rejection of cyclic after-graphs is proved through the id-level hasCycle guard inside the section", "that a later read shows the created items is the composition with replayEvents' step clauses [created-from-event] and [text] (C06/C17), stated per event, not as one end-to-end lemma", "completeness of edges (every after entry yields an edge unless it repeats one) is not stated; the statement proved is soundness: every written and reported edge is named by an after entry", "replaceEventsAtomically is an assumed contract until the storage layer is under contract (C03/C04)"},
+		Assume:    []string{"ParsePlanInput (strict JSON decoding: unknown keys, several values) is an assumed contract exercised by the BOUNDED stand-in planParse (22 payloads per parser x 6 tails through the real function with stdin replaced by a pipe); hasPlanCycle (title-level cycle text) is an assumed contract; rejection of cyclic after-graphs is proved through the id-level hasCycle guard inside the section", "that a later read shows the created items is the composition with replayEvents' step clauses [created-from-event] and [text] (C06/C17), stated per event, not as one end-to-end lemma", "completeness of edges (every after entry yields an edge unless it repeats one) is not stated; the statement proved is soundness: every written and reported edge is named by an after entry", "replaceEventsAtomically is an assumed contract until the storage layer is under contract (C03/C04)"},
 	},
 	"C14": {
 		ID: "C14", Exclude: cat(txLabels, jsonLabels), Title: "Every task's epic reference names a live epic",
